@@ -386,7 +386,7 @@ impl Check for C19Check {
                     let a = r.usize(0, nf - 2);
                     FileFault::DupInitialTimestamp { a, b: r.usize(a + 1, nf - 1) }
                 }
-                _ => FileFault::UnknownExtension { file: r.usize(0, nf - 1), ext: r.pick(&["dat", "mid.gz", "lz", "MID", "txt", ""]).to_string() },
+                _ => FileFault::UnknownExtension { file: r.usize(0, nf - 1), ext: r.pick(&["dat", "mid.gz", "lz", "MID", "txt", "", "=.mid", "=.lz4", "=mid", "=lz4", "=run.mid.", "=run.mid~", "mid ", "lz4x", "Lz4", "=.mid.bak"]).to_string() },
             })
         } else {
             None
@@ -438,7 +438,23 @@ impl Check for C19Check {
         let fault_kind = scn.file_fault.as_ref().map(|f| f.kind()).unwrap_or("none");
         let mut bad_name_is_link_to: Option<(usize, String)> = None;
         // file-level faults
-        let mut names: Vec<String> = (0..built.files.len()).map(|k| format!("run_f{k}.mid{}", if scn.files[k].lz4 { ".lz4" } else { "" })).collect();
+        // how the operator's files are called: the usual name, a hidden file, dots / a known
+        // extension / blanks / non-ASCII letters inside the stem (the LAST extension decides)
+        let stem_form = (scn.t0 >> 5) % 8;
+        let stem = |k: usize| -> String {
+            match stem_form {
+                0 => format!(".hid_f{k}"),
+                1 => format!("a.b_f{k}"),
+                2 => format!("f{k}.lz4"),
+                3 => format!("r n_f{k}"),
+                4 => format!("r\u{fc}n_f{k}.MID"),
+                _ => format!("run_f{k}"),
+            }
+        };
+        if stem_form < 5 {
+            stats.probe("file_names_with_unusual_stem");
+        }
+        let mut names: Vec<String> = (0..built.files.len()).map(|k| format!("{}.mid{}", stem(k), if scn.files[k].lz4 { ".lz4" } else { "" })).collect();
         match &scn.file_fault {
             Some(FileFault::OtherRun { file }) if *file < built.files.len() && built.files.len() >= 2 => {
                 built.files[*file].run_number = scn.run_number.wrapping_sub(1);
@@ -465,7 +481,15 @@ impl Check for C19Check {
                 stats.fault("duplicate_initial_timestamp");
             }
             Some(FileFault::UnknownExtension { file, ext }) if *file < built.files.len() => {
-                names[*file] = if ext.is_empty() { format!("run_f{file}") } else { format!("run_f{file}.{ext}") };
+                names[*file] = if let Some(whole) = ext.strip_prefix('=') {
+                    // the whole file name, e.g. a file called just ".mid": no stem, hence no extension
+                    stats.probe("unknown_extension_whole_name");
+                    whole.to_string()
+                } else if ext.is_empty() {
+                    format!("run_f{file}")
+                } else {
+                    format!("run_f{file}.{ext}")
+                };
                 stats.fault("unknown_extension");
                 // in half of these cases the badly named argument is a symbolic link to a properly
                 // named file (the name given on the command line decides, not where it leads)
@@ -563,8 +587,9 @@ impl Check for C19Check {
         // the configuration's argv seed): absolute, relative to the working directory, "./name",
         // through a dotted sub-directory and "..", through a symbolic link
         let _ = std::fs::create_dir_all(scratch.dir.join("sub.dir.mid"));
+        let _ = std::fs::create_dir_all(scratch.dir.join("lnk.d"));
         for n in &names {
-            let _ = std::os::unix::fs::symlink(scratch.dir.join(n), scratch.dir.join(format!("ln_{n}")));
+            let _ = std::os::unix::fs::symlink(scratch.dir.join(n), scratch.dir.join("lnk.d").join(n));
         }
         let path_form = |argv_seed: u64, k: usize| -> std::path::PathBuf {
             match (argv_seed >> 7) % 6 {
@@ -572,7 +597,7 @@ impl Check for C19Check {
                 2 => std::path::PathBuf::from(&names[k]),
                 3 => std::path::PathBuf::from(format!("./{}", names[k])),
                 4 => std::path::PathBuf::from(format!("sub.dir.mid/../{}", names[k])),
-                _ => std::path::PathBuf::from(format!("ln_{}", names[k])),
+                _ => std::path::PathBuf::from(format!("lnk.d/{}", names[k])),
             }
         };
         let mk_narrow = |cfgs: Vec<RunCfg>| {
